@@ -158,6 +158,10 @@ inductive Late
   /-- a waiting route for the tunnel is registered by node `node` for `mappingID` (`startSourceBridge` on that
   node); `bridgeAppears`: on this node the bridge itself is there too (it is registered before the route) -/
   | route (mappingID : String) (node : String) (bridgeAppears : Bool)
+  /-- a bridge for `mappingID` is registered on this node in the WINDOW between the dispatcher's own look-up of
+  `tunnelBridges` (nothing found, success ack written) and the second look-up inside `handleTargetBridge` /
+  the insert-if-absent of `startSourceBridge` -/
+  | window (mappingID : String)
 deriving DecidableEq, Repr
 
 /-- `handleLocalBridgeWait`: polls `tunnelBridges` (5 s); attaches as target when the bridge is there. -/
@@ -172,10 +176,19 @@ def processCrossNodeForwardLate (w : World) (req : Req) (mappingID node : String
   else if node == w.nodeID then handleLocalBridgeWait bridgeAppears
   else ⟨.ok, .forward node, .err⟩
 
-/-- `handleTargetBridge` when no bridge exists at arrival: poll the routing table until something appears. -/
+/-- `handleTargetBridge` (success ack already out): the second look-up of `tunnelBridges` — a bridge found
+there is joined only if it belongs to the request's mapping; no bridge: poll the routing table. -/
 def handleTargetBridge (w : World) (req : Req) : Late → Outcome
+  | .window mappingID =>
+    if mappingID != req.MappingID then ⟨.ok, .none, .err⟩ else ⟨.ok, .target, .switch⟩
   | .none => ⟨.ok, .none, .pending⟩
   | .route mappingID node bridgeAppears => processCrossNodeForwardLate w req mappingID node bridgeAppears
+
+/-- `handleSourceBridge` → `startSourceBridge`: insert-if-absent under `bridgeLock`; a bridge registered in
+the window makes it fail with "tunnel already exists" (nothing attached). -/
+def handleSourceBridge : Late → Outcome
+  | .window _ => ⟨.ok, .none, .err⟩
+  | _ => ⟨.ok, .source, .switch⟩
 
 /-- `SessionManager.handleTunnelOpen` (repaired order: authorise, then dispatch); `late` is what appears while
 the request polls (only looked at on the polling branch). -/
@@ -191,12 +204,65 @@ def openTunnelDyn (w : World) (id : ConnIdent) (req : Req) (ts : TunnelState) (l
         | .remote mappingID node =>
           if mappingID != req.MappingID then refuse else processCrossNodeForward w node
         | .none =>
-          if isSourceClient w clientConn req then ⟨.ok, .source, .switch⟩   -- handleSourceBridge → startSourceBridge
-          else handleTargetBridge w req late   -- no bridge: polls the routing table
+          if isSourceClient w clientConn req then handleSourceBridge late
+          else handleTargetBridge w req late
 
 /-- The dispatcher when nothing changes while the request is handled. -/
 def openTunnel (w : World) (id : ConnIdent) (req : Req) (ts : TunnelState) : Outcome :=
   openTunnelDyn w id req ts .none
+
+/-! ## Updates of the mapping record (whole-record read-modify-write)
+
+`conncode.Service.{RecordMappingUsage, RevokeMapping}`, `PortMappingRepo.{UpdatePortMappingStats,
+UpdatePortMappingStatus}` (internal/cloud/services/conncode/activation.go, internal/cloud/repos/mapping_repository.go):
+each reads the whole record, changes some fields and writes the whole record back. -/
+
+/-- What an update does to the copy it read (on the fields the open-tunnel decision looks at). -/
+inductive Update
+  /-- `RecordMappingUsage`: sets `LastActive` only -/
+  | usage
+  /-- `UpdatePortMappingStats`: sets `TrafficStats` only -/
+  | stats
+  /-- `UpdatePortMappingStatus status` -/
+  | status (s : String)
+  /-- `RevokeMapping` → `PortMapping.Revoke`: `IsRevoked = true`, `Status = inactive` -/
+  | revoke
+deriving DecidableEq, Repr
+
+def Update.apply : Update → PortMapping → PortMapping
+  | .usage, m => m
+  | .stats, m => m
+  | .status s, m => { m with Status := s }
+  | .revoke, m => { m with IsRevoked := true, Status := Gen.models.MappingStatusInactive }
+
+/-- Repaired code: every update holds `repos.LockPortMapping(id)` from its read to its write, so updates of one
+record take effect one after the other, in some order. -/
+def runSerial (us : List Update) (m : PortMapping) : PortMapping :=
+  us.foldl (fun r u => u.apply r) m
+
+/-- One step of an update thread under the code as found (no lock): read the record into a private copy, or write
+the changed private copy back. -/
+inductive RmwStep
+  | read (thread : Nat)
+  | write (thread : Nat)
+deriving DecidableEq, Repr
+
+structure RmwCfg where
+  record : PortMapping
+  /-- the private copy each thread holds (by thread index) -/
+  copies : List (Nat × PortMapping)
+deriving Repr
+
+def RmwCfg.step (threads : List Update) (c : RmwCfg) : RmwStep → RmwCfg
+  | .read t => { c with copies := (t, c.record) :: c.copies.filter (fun p => p.1 != t) }
+  | .write t =>
+    match threads[t]?, c.copies.find? (fun p => p.1 == t) with
+    | some u, some p => { c with record := u.apply p.2 }
+    | _, _ => c
+
+/-- As found: any interleaving of the threads' reads and writes. -/
+def runInterleaved (threads : List Update) (sched : List RmwStep) (m : PortMapping) : PortMapping :=
+  (sched.foldl (RmwCfg.step threads) ⟨m, []⟩).record
 
 /-- The dispatcher as found (before the repair): an existing bridge or a waiting route is served *before*
 any credential check, for whatever connection names the tunnel id.  Kept to state the witnesses. -/
